@@ -15,7 +15,12 @@
 //!   craft <0|1> <s> <tp>       craft_valid_multiaddr_from_str; tp = err | comma list of protocol tags of the parsed multiaddr
 //!   leastfaulty s:f …          BootstrapAddresses::get_least_faulty (reaches failure_rate)
 //!   reliable s f               BootstrapAddr::is_reliable
-//!   loadcache k m <gen|b> <tp> BootstrapCacheStore::load_cache_data; tp = err | peers `s:f:e,…|…` (serde_json into a mirror struct)
+//!   loadcache k m gen <desc> <tp> | loadcache k m <b> <tp>
+//!                              BootstrapCacheStore::load_cache_data on a rendered (`gen`) or raw file;
+//!                              desc = [u<ts>/]peers, peers = `s:f:<ts>,…|…` (`e` = peer without addrs, `nopeers`),
+//!                              <ts> = last_seen: 0 (= now) | 1 (= two days old / one day ahead) | now-1 | now+2 | old | fut |
+//!                              <secs>n<nanos> literal; u<ts> = last_updated;
+//!                              tp = err | peers `s:f:e,…|…` with e = expired (serde_json + UTF-8 into a mirror struct)
 use ant_bootstrap::{BootstrapAddr, BootstrapAddresses, BootstrapCacheConfig, BootstrapCacheStore};
 use ant_protocol::storage::{try_deserialize_record, RecordHeader, RecordKind, ScratchpadAddress};
 use ant_registers::RegisterAddress;
@@ -171,8 +176,29 @@ fn peer_id(n: u64) -> PeerId {
     PeerId::from_bytes(&b).expect("peer id")
 }
 
-fn render_cache(abs: &str) -> String {
-    let now = SystemTime::now().duration_since(SystemTime::UNIX_EPOCH).expect("now");
+/// `"secs_since_epoch":S,"nanos_since_epoch":N` for a timestamp token of the op line
+fn render_ts(tok: &str, now: u64, alt: bool) -> String {
+    let (secs, nanos): (String, String) = match tok {
+        "0" | "now" => (now.to_string(), "0".into()),
+        "1" => (if alt { now.saturating_sub(2 * 86400) } else { now + 86400 }.to_string(), "0".into()),
+        "now-1" => ((now - 1).to_string(), "0".into()),
+        "now+2" => ((now + 2).to_string(), "0".into()),
+        "old" => (now.saturating_sub(2 * 86400).to_string(), "0".into()),
+        "fut" => ((now + 86400).to_string(), "0".into()),
+        lit => match lit.split_once('n') {
+            Some((a, b)) => (a.to_string(), b.to_string()),
+            None => (lit.to_string(), "0".into()),
+        },
+    };
+    format!("{{\"secs_since_epoch\":{secs},\"nanos_since_epoch\":{nanos}}}")
+}
+
+fn render_cache(desc: &str) -> String {
+    let now = SystemTime::now().duration_since(SystemTime::UNIX_EPOCH).expect("now").as_secs();
+    let (updated, abs) = match desc.strip_prefix('u').and_then(|r| r.split_once('/')) {
+        Some((u, rest)) => (u, rest),
+        None => ("now", desc),
+    };
     let mut peers = vec![];
     if abs != "nopeers" {
         for (pi, p) in abs.split('|').enumerate() {
@@ -181,15 +207,10 @@ fn render_cache(abs: &str) -> String {
             if p != "e" {
                 for (ai, a) in p.split(',').enumerate() {
                     let f: Vec<&str> = a.split(':').collect();
-                    let secs = match f.get(2).copied() {
-                        Some("0") => now.as_secs(),
-                        _ => {
-                            if (pi + ai) % 2 == 0 { now.as_secs().saturating_sub(2 * 86400) } else { now.as_secs() + 86400 }
-                        }
-                    };
+                    let ts = render_ts(f.get(2).copied().unwrap_or("now"), now, (pi + ai) % 2 == 0);
                     addrs.push(format!(
-                        "{{\"addr\":\"/ip4/10.0.{}.{}/udp/{}/quic-v1/p2p/{id}\",\"success_count\":{},\"failure_count\":{},\"last_seen\":{{\"secs_since_epoch\":{secs},\"nanos_since_epoch\":0}}}}",
-                        pi % 256, ai % 256, 1000 + ai, f[0], f[1]
+                        "{{\"addr\":\"/ip4/10.0.{}.{}/udp/{}/quic-v1/p2p/{id}\",\"success_count\":{},\"failure_count\":{},\"last_seen\":{ts}}}",
+                        pi % 256, ai % 256, 1000 + ai, f.first().copied().unwrap_or("0"), f.get(1).copied().unwrap_or("0")
                     ));
                 }
             }
@@ -197,9 +218,9 @@ fn render_cache(abs: &str) -> String {
         }
     }
     format!(
-        "{{\"peers\":{{{}}},\"last_updated\":{{\"secs_since_epoch\":{},\"nanos_since_epoch\":0}},\"network_version\":\"x\"}}",
+        "{{\"peers\":{{{}}},\"last_updated\":{},\"network_version\":\"x\"}}",
         peers.join(","),
-        now.as_secs()
+        render_ts(updated, now, true)
     )
 }
 
@@ -340,13 +361,15 @@ fn exec(line: &str, tmp: &std::path::Path) -> (String, String) {
             ["loadcache", k, m, src, rest @ ..] => {
                 let (Ok(kk), Ok(mm)) = (k.parse::<usize>(), m.parse::<usize>()) else { return "bad-op".into() };
                 let bytes = if *src == "gen" {
-                    let Some(abs) = rest.first() else { return "bad-op".into() };
-                    render_cache(abs).into_bytes()
+                    let Some(desc) = rest.first() else { return "bad-op".into() };
+                    let b = render_cache(desc).into_bytes();
+                    op = format!("loadcache {k} {m} gen {desc} {}", cache_verdict(&b));
+                    b
                 } else {
                     let Some(b) = unhex(src) else { return "bad-op".into() };
+                    op = format!("loadcache {k} {m} {src} {}", cache_verdict(&b));
                     b
                 };
-                op = format!("loadcache {k} {m} {src} {}", cache_verdict(&bytes));
                 let path = tmp.join("cache.json");
                 std::fs::write(&path, &bytes).expect("write cache file");
                 let mut cfg = BootstrapCacheConfig::empty();
@@ -503,6 +526,17 @@ fn counter(rng: &mut Rng) -> u32 {
     }
 }
 
+/// boundary values of a stored `SystemTime`: epoch, around now, far future, around i64::MAX minus the expiry
+/// durations in use (3600 s in this harness, 86400 s by default), beyond i64::MAX (serde rejects), nanos carry
+const TS_EDGES: &[&str] = &[
+    "0n0", "1n0", "0n999999999", "0n1000000000", "0n4294967295", "now-1", "now", "now+2", "old", "fut", "253402300800n0",
+    "9223372036854689406n0", "9223372036854689407n0", "9223372036854689408n0",
+    "9223372036854772206n0", "9223372036854772207n0", "9223372036854772208n0",
+    "9223372036854775806n0", "9223372036854775807n0", "9223372036854775807n999999999", "9223372036854775807n1000000000",
+    "9223372036854775808n0", "18446744073709551615n0", "18446744073709551615n999999999", "18446744073709551615n1000000000",
+    "18446744073709551616n0", "-1n0", "0n-1", "0n4294967296", "1.5n0",
+];
+
 fn cache_abs(rng: &mut Rng) -> String {
     let np = rng.below(5);
     if np == 0 {
@@ -519,7 +553,12 @@ fn cache_abs(rng: &mut Rng) -> String {
         let addrs: Vec<String> = (0..na)
             .map(|_| {
                 let (s, f) = if hot { (u32::MAX - rng.below(2) as u32, 1 + rng.below(2) as u32) } else { (counter(rng), counter(rng)) };
-                format!("{s}:{f}:{}", if rng.chance(1, 4) { 1 } else { 0 })
+                let ts = match rng.below(8) {
+                    0 | 1 => "1".to_string(),
+                    2 => rng.pick(TS_EDGES).to_string(),
+                    _ => "0".to_string(),
+                };
+                format!("{s}:{f}:{ts}")
             })
             .collect();
         peers.push(addrs.join(","));
@@ -539,6 +578,12 @@ fn corpus(v: &mut Vec<String>, rng: &mut Rng) {
     v.push(format!("leastfaulty {}:1", u32::MAX));
     v.push(format!("leastfaulty 1:1 {}:1 0:0", u32::MAX));
     v.push(format!("loadcache 1 10 gen {m}:1:0,{m}:1:0,{m}:1:0", m = u32::MAX));
+    // stored timestamps at the edges of what SystemTime holds (any arithmetic on last_seen overflows near i64::MAX)
+    for ts in TS_EDGES {
+        v.push(format!("loadcache 1 10 gen 1:0:{ts}"));
+    }
+    v.push(format!("loadcache 1 10 gen u{}n0/1:0:now", i64::MAX));
+    v.push(format!("loadcache 0 0 gen 1:0:{m}n999999999,1:0:{m}n0|2:1:{m}n0", m = i64::MAX));
     v.push("hdr -".into());
     v.push("hdr 91".into());
     v.push("hdr 9101".into());
@@ -704,7 +749,8 @@ fn generate(n: u64, rng: &mut Rng) -> Vec<String> {
             17 | 18 => {
                 let k = rng.below(4);
                 let m = rng.below(4);
-                v.push(format!("loadcache {k} {m} gen {}", cache_abs(rng)));
+                let upd = if rng.chance(1, 6) { format!("u{}/", rng.pick(TS_EDGES)) } else { String::new() };
+                v.push(format!("loadcache {k} {m} gen {upd}{}", cache_abs(rng)));
             }
             _ => {
                 // cache file as raw bytes: truncated / mutated JSON, non-UTF-8, empty
